@@ -186,6 +186,9 @@ theorem mpf_mul_div_2exp_err (prec : Nat) (hp : 1 ≤ prec) (u : F) (e : Nat) (h
   · rw [← m2, div_2exp_exact prec _ e t1 hlen, ← sub_div, abs_div, abs_div, abs_of_pos h2, ← mul_div_assoc]
     exact div_lt_div_of_pos_right t5 h2
 
+-- a 4-limb operand shifted into a 2-limb destination: cut to 2 limbs first
+example : mul_2exp 2 ⟨3, 4, 1, [7, 8, 9, 1]⟩ 1 = ⟨2, 2, 1, [18, 2]⟩ := by decide
+
 /-! ### exact functions: floor, ceil, trunc, integer_p
 
 `hfit`: the integer part (min(|size|, exp) limbs) fits in the destination's prec+1 limbs; otherwise
@@ -661,6 +664,16 @@ theorem mpf_add_exact_if_fits (prec : ℕ) (hp : 2 ≤ prec) (u v : F) (hu : OpW
     toQ (add prec rIsU rIsV u v) = toQ u + toQ v :=
   add_exact prec hp u v hu hv rIsU rIsV fu fv fe
 
+-- non-vacuity of the `Fits` hypotheses: 3 + 5 at two limbs of precision
+example : toQ (add 2 false false ⟨2, 1, 1, [3]⟩ ⟨2, 1, 1, [5]⟩) = toQ ⟨2, 1, 1, [3]⟩ + toQ ⟨2, 1, 1, [5]⟩ :=
+  mpf_add_exact_if_fits 2 (le_refl _) _ _ (by decide) (by decide) false false
+    ⟨3, 0, by simp [toQ, val], by norm_num [PREC_TO_BITS]⟩ ⟨5, 0, by simp [toQ, val], by norm_num [PREC_TO_BITS]⟩
+    ⟨8, 0, by simp [toQ, val]; norm_num, by norm_num [PREC_TO_BITS]⟩
+example : toQ (sub 2 false false ⟨2, 1, 1, [3]⟩ ⟨2, 1, 1, [5]⟩) = toQ ⟨2, 1, 1, [3]⟩ - toQ ⟨2, 1, 1, [5]⟩ :=
+  mpf_sub_exact_if_fits 2 (le_refl _) _ _ (by decide) (by decide) false false
+    ⟨3, 0, by simp [toQ, val], by norm_num [PREC_TO_BITS]⟩ ⟨5, 0, by simp [toQ, val], by norm_num [PREC_TO_BITS]⟩
+    ⟨-2, 0, by simp [toQ, val]; norm_num, by norm_num [PREC_TO_BITS]⟩
+
 /-- mpf_sub_ui (w < 2^64). -/
 theorem mpf_sub_ui_err (prec : ℕ) (hp : 2 ≤ prec) (u : F) (w : ℕ) (hu : OpWF u) (hw : w < B) (rIsU : Bool)
     (hau : rIsU = true → u.d.length ≤ prec + 1) :
@@ -735,6 +748,7 @@ theorem mpf_set_d_special (prec : ℕ) (bits : ℕ) :
   rw [if_neg (by rw [h1]; norm_num), if_pos ⟨h1, h2⟩]
 
 example : set_d 2 0x3ff8000000000000 = .ok ⟨2, 2, 1, [B / 2, 1]⟩ := by decide
+example : set_d 2 0x7ff0000000000000 = .invalid ∧ set_d 2 (2 ^ 63) = .ok (zero 2) := by decide
 
 /-! ### wf_preserved: every modelled operation returns a well-formed result
 
@@ -792,5 +806,7 @@ theorem set_prec_raw_spec (x : F) (bits : ℕ) (hx : WF x) :
   ⟨rfl, fun h => ⟨hx.1, hx.2.1, by show x.size.natAbs ≤ BITS_TO_PREC bits + 1; rw [← hx.2.1]; exact h, hx.2.2.2.1, hx.2.2.2.2⟩⟩
 
 example : (set_prec ⟨4, 5, 3, [1, 2, 3, 4, 5]⟩ 64).d = [3, 4, 5] := by decide
+example : WF (set_prec_raw ⟨4, 3, 3, [1, 2, 3]⟩ 64) ∧ ¬ WF (set_prec_raw ⟨4, 5, 3, [1, 2, 3, 4, 5]⟩ 64) := by decide
+example : get_prec (init2 65) = 128 := by decide
 
 end Mpir.Mpf
